@@ -3,6 +3,7 @@ import Lean.Data.Json
 import Simpleline.Model.Paging
 import Simpleline.Model.KeyPattern
 import Simpleline.Model.Column
+import Simpleline.Model.Dialogs
 
 open Lean Simpleline
 
